@@ -50,6 +50,10 @@ Catalogue == {
   T("numfor", "Lua51", "block", <<NumFor("i", One, Two, Body1)>>),
   T("numfor_step", "Lua51", "block", <<N("numfor", "step", <<LName("i"), One, Two, One, EmptyBlock>>)>>),
   T("genfor", "Lua51", "block", <<GenFor(<<"k", "v">>, <<CallOf("pairs", <<Name("t")>>)>>, Body1)>>),
+  \* loop variables too long for a narrow line next to an iterator call that hugs its table
+  T("genfor_tbl", "Lua51", "block", <<GenFor(<<"first_long_name", "second_long_name">>, <<CallOf("pairs", <<Table(<<FName("alpha", One), FName("beta", Two)>>)>>)>>, Body1)>>),
+  \* an if / else one level down: a comment in front of `else` sits at the depth of the `else`
+  T("do_if_else", "Lua51", "block", <<Do(Block(<<N("if", "else", <<A, Body1, B, EmptyBlock, EmptyBlock>>)>>))>>),
   T("function", "Lua51", "func", <<FunctionDecl("g", <<"p", "q">>, RetBody)>>),
   T("function0", "Lua51", "func", <<FunctionDecl("g", <<>>, EmptyBlock)>>),
   T("localfunction", "Lua51", "func", <<LocalFunction("g", <<"p">>, RetBody)>>),
@@ -79,6 +83,7 @@ Catalogue == {
   T("index_chain", "Lua51", "expr", <<Local(<<"x">>, <<Chain(<<Name("t"), Leaf("dot", "k"), N("idx", "", <<One>>), CallArgs(<<A>>)>>)>>)>>),
   T("two_stmts", "Lua51", "stmt", <<Local(<<"x">>, <<One>>), Local(<<"y">>, <<Two>>)>>),
   T("semi", "Lua51", "stmt", <<Semi(Local(<<"x">>, <<One>>)), Semi(CallStmt(CallF(<<>>)))>>),
+  T("func_goto", "Lua52", "func", <<Local(<<"g">>, <<Func(<<>>, Block(<<Leaf("goto", "top")>>))>>), Leaf("label", "top")>>),
   T("goto", "Lua52", "stmt", <<Leaf("label", "top"), Leaf("goto", "top")>>),
   T("attrib", "Lua54", "stmt", <<N("local", "=", <<N("names", "", <<N("lname", "x", <<Leaf("attrib", "const")>>)>>), Exprs(<<One>>)>>)>>),
   T("compound", "Luau", "luau", <<Compound("+=", Name("x"), One)>>),
